@@ -17,7 +17,7 @@ def insertSorted (k : Bytes) : List (Bytes × Nat) → List (Bytes × Nat)
     aggregation-loop transition system, and the two halves against each other (what main sampled is, in
     order, what the pipeline model's consumer received). -/
 def aggTrace (cfg : PipelineTrace.Cfg) (evs : List TraceOrder.Ev) : String :=
-  let pipe := Drv.C01.pipeTrace cfg evs
+  let pipe := Drv.C01.pipeTrace cfg evs AggLoopTrace.aggKinds
   if !pipe.answer.startsWith "ok " then "rejected pipeline: " ++ pipe.answer else
   let aevs := evs.filter fun e => AggLoopTrace.aggKinds.contains e.kind
   let stream := AggLoopTrace.streamOf aevs
